@@ -48,7 +48,7 @@ def _is_logging_only(stmt: ast.stmt) -> bool:
     if isinstance(stmt, ast.Expr) and _is_logger_call(stmt.value, _LOG_METHODS):
         return True
     if isinstance(stmt, ast.If) and not stmt.orelse and _is_logger_call(stmt.test, {"isEnabledFor"}):
-        return all(_is_logging_only(s) for s in stmt.body)
+        return all(isinstance(s, ast.Pass) or _is_logging_only(s) for s in stmt.body)
     return False
 
 
